@@ -813,12 +813,12 @@ func mMismatchText(ms []mMismatch) string {
 
 type mUP4Cfg struct {
 	GhostPeers map[uint32]bool
-	N3      uint32
-	PoolIP  uint32
-	PoolLen int
-	Slice   uint8
-	QFIToTC map[uint8]uint8
-	DefTC   uint8
+	N3         uint32
+	PoolIP     uint32
+	PoolLen    int
+	Slice      uint8
+	QFIToTC    map[uint8]uint8
+	DefTC      uint8
 }
 
 // mAppKey: the application filter of a PDR in UP4 terms (remote prefix, remote port range, protocol); ok=false: no filter
